@@ -51,6 +51,23 @@ theorem C04_chunking_independent (t : OpTable) (hs : SizeOK t) (h₁ h₂ : List
   simp only at a b
   refine ⟨by rw [a.1, b.1, hw], by rw [a.2.2, b.2.2, hw]⟩
 
+/-- No retraction: an instruction, once emitted, is final. Whatever the history `h`
+so far and however it continues (`h'`: more writes in any chunking, more polls),
+the instructions emitted after `h` are a prefix of the linear sweep of everything
+written by the end — so a consumer that acted on them never has to revise, and the
+bytes written after `h` extend those written during `h`. -/
+theorem C04_no_retraction (t : OpTable) (hs : SizeOK t) (h h' : List Ev) (hb : BytesOK (h ++ h')) :
+    (run t h).emitted <+: (decodeAll t (run t (h ++ h')).written).1 ∧
+    (run t h).written <+: (run t (h ++ h')).written := by
+  have e := Disasm.foldl_extends t h' (run t h)
+  have hr : h'.foldl (step t) (run t h) = run t (h ++ h') := by
+    unfold run; rw [List.foldl_append]
+  rw [hr] at e
+  have l := (C04_lossless t hs (h ++ h') hb).2.2.2.2.1
+  refine ⟨?_, e.2⟩
+  rw [l]
+  exact e.1.trans (List.prefix_append _ _)
+
 /-- The hypothesis `SizeOK` holds for the regenerated Cancun table (the fork the
 disassembler uses). -/
 theorem sizeOK_cancun : SizeOK Gen.cancun := Disasm.sizeOK_of_tableOK Ops.cancun_tableOK
